@@ -8,6 +8,7 @@ as closed counterexamples).
 Token classes: `Spec/Tokens.lean`.  Helper lemmas (`lx_…`): `Proofs/Lexical.lean`.
 -/
 import StubGen.Proofs.Lexical
+import StubGen.Proofs.PathConv
 
 namespace StubGen.C02
 
@@ -231,75 +232,53 @@ theorem escapePath_segments (p : String) (h : ∀ s ∈ pySplit p '.', isIdent s
 theorem escapePath_qualified (p : String) (h : ∀ s ∈ pySplit p '.', isIdent s.toList = true) :
     isQualifiedToken (escapePath p) = true := lx_escapePath_qualified p h
 
-/-- `convertName` treats a dotted path as ONE name (the dots are ordinary characters).  All the
-    same, when every segment is convertible, every segment of the converted path is a legal
-    identifier … -/
+/-- REPAIRED (8e9a214; before, `convertName` treated a dotted path as ONE name: `pkg._private.mod` became
+    `pkg.Private.mod`, and a segment of underscores only vanished — `a._.b` became `a..b`, not a qualified name): the
+    segments of the converted path are the converted segments -/
+theorem converted_path_segments (p : String) (safe : Bool) :
+    pySplit (convertPath p safe) '.' = (pySplit p '.').map (fun s => convertName s safe) :=
+  pc_split_convertPath p safe
+
+/-- when every segment is convertible, every segment of the converted path is a legal identifier … -/
 theorem converted_path_segments_ident (p : String) (safe : Bool)
     (h : ∀ s ∈ pySplit p '.', Convertible s.toList = true) :
-    ∀ s ∈ pySplit (convertName p safe) '.', isIdent s.toList = true := by
+    ∀ s ∈ pySplit (convertPath p safe) '.', isIdent s.toList = true := by
+  rw [converted_path_segments]
+  intro s hs
+  obtain ⟨q, hq, rfl⟩ := List.mem_map.mp hs
   cases safe with
-  | true => exact lx_convertedPath_segments_ident p h
-  | false => rw [C09.convert_off]; exact fun s hs => lx_convertible_isIdent (h s hs)
+  | true => exact C09.convert_on_legal q false (h q hq)
+  | false => rw [C09.convert_off]; exact lx_convertible_isIdent (h q hq)
 
-/-- … and the package / import path that is printed is a qualified name (the answer to "true or
-    false in general?" is TRUE under `Convertible` segments) -/
+/-- … and the package / import path that is printed is a qualified name -/
 theorem converted_path_qualified (p : String) (safe : Bool)
     (h : ∀ s ∈ pySplit p '.', Convertible s.toList = true) :
-    isQualifiedToken (escapePath (convertName p safe)) = true :=
+    isQualifiedToken (escapePath (convertPath p safe)) = true :=
   lx_escapePath_qualified _ (converted_path_segments_ident p safe h)
 
-/-- the segments of the converted path are the converted segments UP TO ASCII CASE … -/
-theorem converted_path_segments_lower (p : String) (h : ∀ s ∈ pySplit p '.', Convertible s.toList = true) :
-    (pySplit (convertName p true) '.').map (fun s => s.toList.map Char.toLower)
-      = (pySplit p '.').map (fun s => (convertName s true).toList.map Char.toLower) := by
-  have hp : p ≠ "_" := by intro e; subst e; revert h; decide
-  have := lx_convertedPath_segments_lower p hp
-  unfold pySplit at h ⊢
-  simp only [List.map_map]
-  have h1 : ((fun s : String => s.toList.map Char.toLower) ∘ String.ofList) = List.map Char.toLower := by
-    funext l; simp
-  rw [h1, this]
-  apply List.map_congr_left
-  intro seg hseg
-  have hc := h (String.ofList seg) (List.mem_map_of_mem hseg)
-  have hne : String.ofList seg ≠ "_" := by
-    intro e; rw [e] at hc; revert hc; decide
-  simp only [Function.comp]
-  rw [C09.convert_on_letters _ false hne, String.toList_ofList]
+/-- the conversion of a path is, by definition, the segment-wise conversion -/
+theorem converted_path_exact (p : String) (safe : Bool) :
+    convertPath p safe = joinWith "." ((pySplit p '.').map (convertName · safe)) := rfl
 
-/-- … and EXACTLY the converted segments when no segment but the first starts with an underscore
-    (trailing underscores and underscores inside a segment are harmless: the `.` that follows uses
-    up the pending capitalisation) … -/
-theorem converted_path_exact (p : String) (h : ∀ s ∈ pySplit p '.', Convertible s.toList = true)
-    (hin : ∀ s ∈ (pySplit p '.').tail, pyStartsWith s "_" = false) :
-    convertName p true = joinWith "." ((pySplit p '.').map (convertName · true)) :=
-  lx_convertedPath_exact p h hin
-
-/-- … but not in general: an inner segment that starts with an underscore is capitalised, because the
-    underscore is taken for a word separator of the one big name (finding; the result is still a
-    qualified name, but `pkg._private.mod` and `pkg.Private.mod` name different packages than the
-    segment-wise rendering `pkg.private.mod`) -/
-example : convertName "pkg._private.mod" true = "pkg.Private.mod" ∧
-    joinWith "." ((pySplit "pkg._private.mod" '.').map (convertName · true)) = "pkg.private.mod" := by decide
-/-- trailing underscores and underscores inside a segment behave segment-wise -/
-example : convertName "my_pkg_.sub_mod_.x" true = "myPkg.subMod.x" ∧
-    joinWith "." ((pySplit "my_pkg_.sub_mod_.x" '.').map (convertName · true)) = "myPkg.subMod.x" := by decide
-/-- outside `Convertible` segments the converted path is not a qualified name: a segment `_`
-    disappears, a segment `_1` becomes `1` -/
-example : isQualifiedToken (escapePath (convertName "a._.b" true)) = false ∧ convertName "a._.b" true = "a..b" ∧
-    isQualifiedToken (escapePath (convertName "a._1.b" true)) = false ∧ convertName "a._1.b" true = "a.1.b" := by decide
+/-- an inner segment with a leading underscore stays lowerCamelCase; trailing underscores and underscores inside a segment -/
+example : convertPath "pkg._private.mod" true = "pkg.private.mod" ∧ convertPath "my_pkg_.sub_mod_.x" true = "myPkg.subMod.x" ∧
+    convertPath "concurrent.futures._base" true = "concurrent.futures.base" := by decide
+/-- a segment `_` is kept (and back-quoted as the keyword it is); outside `Convertible` segments the result need not be a
+    qualified name: a segment `_1` becomes `1` -/
+example : escapePath (convertPath "a._.b" true) = "a.`_`.b" ∧ isQualifiedToken (escapePath (convertPath "a._.b" true)) = true ∧
+    isQualifiedToken (escapePath (convertPath "a._1.b" true)) = false ∧ convertPath "a._1.b" true = "a.1.b" := by decide
 /-- keyword segments are back-quoted one by one -/
-example : escapePath (convertName "my_pkg.val.in_" true) = "myPkg.`val`.`in`" ∧
+example : escapePath (convertPath "my_pkg.val.in_" true) = "myPkg.`val`.`in`" ∧
     isQualifiedToken "myPkg.`val`.`in`" = true := by decide
 
 /-! ## 9. the package header -/
 
 theorem header_eq (env : Env) (pkg : String) :
     packageHeader env pkg =
-      (if pkg ≠ convertName pkg env.safe then "@PythonModule(\"" ++ pkg ++ "\")\n" else "")
-        ++ "package " ++ escapePath (convertName pkg env.safe) ++ "\n" := by
+      (if pkg ≠ convertPath pkg env.safe then "@PythonModule(\"" ++ pkg ++ "\")\n" else "")
+        ++ "package " ++ escapePath (convertPath pkg env.safe) ++ "\n" := by
   unfold packageHeader
-  by_cases h : pkg = convertName pkg env.safe
+  by_cases h : pkg = convertPath pkg env.safe
   · simp [← h]
   · simp [h]
 
@@ -309,13 +288,13 @@ theorem header_tokens_off (env : Env) (pkg : String) (hs : env.safe = false)
     (h : ∀ s ∈ pySplit pkg '.', isIdent s.toList = true) :
     packageHeader env pkg = "package " ++ escapePath pkg ++ "\n" ∧ isQualifiedToken (escapePath pkg) = true := by
   refine ⟨?_, lx_escapePath_qualified pkg h⟩
-  rw [header_eq, hs, C09.convert_off]
+  rw [header_eq, hs, pc_convertPath_off]
   simp
 
 /-- either flag: with convertible segments the package path is a qualified name and the string
     body of the `@PythonModule` annotation is safe -/
 theorem header_tokens (env : Env) (pkg : String) (h : ∀ s ∈ pySplit pkg '.', Convertible s.toList = true) :
-    isQualifiedToken (escapePath (convertName pkg env.safe)) = true ∧
+    isQualifiedToken (escapePath (convertPath pkg env.safe)) = true ∧
     isStringToken ("\"" ++ pkg ++ "\"") = true :=
   ⟨converted_path_qualified pkg env.safe h,
    lx_string_closed (lx_path_safe pkg (fun s hs => lx_convertible_safe (h s hs)))⟩
@@ -325,7 +304,7 @@ theorem header_tokens (env : Env) (pkg : String) (h : ∀ s ∈ pySplit pkg '.',
     convertible, the `from` path is a qualified name and the imported name a token -/
 theorem import_line_tokens (imp : String) (safe : Bool) (h2 : 2 ≤ (splitDot imp).length)
     (h : ∀ s ∈ splitDot imp, Convertible s.toList = true) :
-    isQualifiedToken (escapePath (convertName (joinWith "." (dropLast' (splitDot imp))) safe)) = true ∧
+    isQualifiedToken (escapePath (convertPath (joinWith "." (dropLast' (splitDot imp))) safe)) = true ∧
     isIdentToken (escapeKeyword (convertName (lastD "" (splitDot imp)) safe)) = true := by
   unfold splitDot at *
   refine ⟨converted_path_qualified _ safe ?_, rendered_name_token _ _ _ (h _ (lx_lastD_mem _ _ ?_))⟩
